@@ -328,3 +328,36 @@ Proof.
   intros WT IG Q. rewrite mon05_model_late. unfold quiet05 in Q. rewrite (quiet_fold w _ _ Q).
   apply (early_monitor_silent w es WT IG).
 Qed.
+
+(** clauses 2-4 need the device write counter, which the model does not
+    predict: on the model's own observations only clause 1 can be reported *)
+Lemma g_viol_only_1 late w g x :
+  Forall (eq 1%Z) (g_viol g) -> Forall (eq 1%Z) (g_viol (g05_step late w g x)).
+Proof.
+  intros H. destruct x as [e [[s0 s1] mo]]. unfold g05_step.
+  assert (A : Forall (eq 1%Z) (g_viol (g_addviol g [1%Z]))).
+  { cbn. apply Forall_app. split; [exact H|constructor; [reflexivity|constructor]]. }
+  destruct e; auto.
+  - destruct mo; cbn [g_viol g_setgets]; auto;
+      match goal with |- context [if ?b then _ else _] => destruct b end; auto.
+  - destruct (assoc (g_gets g) tid) as [[oi p0]|]; [|auto]. destruct (out_ok mo); cbn; auto.
+  - destruct mo; auto. destruct (Z.eqb code 0); [|auto]. cbv zeta.
+    match goal with |- context [g_touch_all ?a ?b ?d ?g0] => destruct (touch_all_spec a b d g0) as (_ & _ & D & _); rewrite D end.
+    match goal with |- context [if ?b then _ else _] => destruct b end; auto.
+Qed.
+
+Lemma dedupZ_in z l : In z (dedupZ l) -> In z l.
+Proof.
+  induction l as [|x t IH]; cbn; [auto|].
+  destruct (existsb (Z.eqb x) t); [intros H; right; auto|].
+  intros [H|H]; [left; exact H|right; auto].
+Qed.
+
+Theorem model_reports_only_clause_1 w es : forall z, In z (mon05_model w es) -> z = 1%Z.
+Proof.
+  intros z H. rewrite mon05_model_late in H. apply dedupZ_in in H.
+  assert (F : forall xs g, Forall (eq 1%Z) (g_viol g) -> Forall (eq 1%Z) (g_viol (fold_left (g05_step true w) xs g))).
+  { induction xs as [|x t IH]; intros g HG; cbn [fold_left]; [exact HG|]. apply IH, g_viol_only_1, HG. }
+  specialize (F (run_x w es) g05_init (Forall_nil _)).
+  rewrite Forall_forall in F. symmetry. apply F, H.
+Qed.
